@@ -2,6 +2,7 @@ package sym
 
 import (
 	"fmt"
+	"sort"
 	"go/types"
 	"math/big"
 	"strings"
@@ -472,6 +473,31 @@ func init() {
 			}
 		}
 		abortf("package context not loaded")
+		return nil
+	})
+
+	reg("slices.Sort|sort.Strings", func(m *M, fn *ssa.Function, a []Value, r ssa.Value) Value {
+		sl := a[0].(SliceV)
+		es := m.sliceElems(sl)
+		if len(es) < 2 {
+			return nil
+		}
+		strs := make([]string, len(es))
+		for i, e := range es {
+			sv, ok := e.(StrV)
+			if !ok || !sv.IsConst() {
+				abortf("sorting a slice with symbolic / non-string elements")
+			}
+			strs[i] = sv.ConstVal()
+		}
+		sort.Strings(strs)
+		root := m.st.Heap[sl.Obj]
+		arr := descend(root, sl.Path).(*ArrayV)
+		n := &ArrayV{E: append([]Value(nil), arr.E...)}
+		for i, x := range strs {
+			n.E[sl.Off+i] = strC(x)
+		}
+		m.st.setObj(sl.Obj, update(root, sl.Path, n))
 		return nil
 	})
 
